@@ -509,21 +509,14 @@ CO_ERR CORPdoGetMap(CO_RPDO *pdo, uint16_t num)
             return (CO_ERR_RPDO_MAP_OBJ);
         }
         link = mapping >> 16;
-        if ((link == 2) || (link == 5)) {
+        if ((link >= 2) && (link <= 7)) {
             /* dummy: one empty slot per mapped byte (the entry itself is the first slot) */
             pdo[num].Map[on + dummy] = 0;
-        } else if ((link == 3) || (link == 6)) {
-            pdo[num].Map[on + dummy] = 0;
-            dummy++;
-            pdo[num].Map[on + dummy] = 0;
-        } else if ((link == 4) || (link == 7)) {
-            pdo[num].Map[on + dummy] = 0;
-            dummy++;
-            pdo[num].Map[on + dummy] = 0;
-            dummy++;
-            pdo[num].Map[on + dummy] = 0;
-            dummy++;
-            pdo[num].Map[on + dummy] = 0;
+            while (size > 1) {
+                dummy++;
+                pdo[num].Map[on + dummy] = 0;
+                size--;
+            }
         } else {
             obj = CODictFind(&pdo->Node->Dict, mapping);
             if (obj == 0) {
